@@ -59,7 +59,8 @@ impl BoundedClock {
     /// prematurely.
     pub fn retention_cutoff_nanos(&self, retention_nanos: i64) -> i64 {
         let now = self.now_nanos();
-        now - retention_nanos - self.max_skew_ns
+        now.saturating_sub(retention_nanos)
+            .saturating_sub(self.max_skew_ns)
     }
 
     /// Returns the configured max skew tolerance.
